@@ -440,15 +440,21 @@ class LDMService:
             data_consumer_its_aid_copy = self.data_consumer_its_aid.copy()
         return data_consumer_its_aid_copy
 
-    def del_data_consumer_its_aid(self, its_aid: int) -> None:
+    def del_data_consumer_its_aid(self, its_aid: int) -> bool:
         """
         Method to delete data consumer ITS_AID from the list of data consumers.
 
         Parameters
         ----------
         its_aid : int
+
+        Returns
+        -------
+        bool
+            True if the data consumer was registered (and is not any more).
         """
         with self._lock:
+            was_registered = its_aid in self.data_consumer_its_aid
             self.data_consumer_its_aid.discard(its_aid)
             # The subscriptions of a data consumer end with its registration; a later
             # registration of the same application does not revive them.
@@ -458,6 +464,7 @@ class LDMService:
                 if subscription.subscription_request.application_id == its_aid
             ]:
                 self.remove_subscription(subscription)
+        return was_registered
 
     def delete_subscription(self, subscription_id: int) -> bool:
         """
